@@ -42,6 +42,7 @@
 #include "time/Engine.h"
 #include "time/gadgets.h"
 #include "uhelp.h"
+#include "u_rock.h"
 
 #include <csignal>
 #include <fcntl.h>
@@ -134,11 +135,6 @@ std::string packMeta(const uint64_t key[2], const uint64_t swapFileSz, const uns
     return o + f;
 }
 
-struct Made {
-    RefCount<Rock::SwapDir> store;
-    Rock::SwapDirRr *rr = nullptr;
-};
-
 void addSwapDir(RefCount<Rock::SwapDir> s)
 {
     allocate_new_swapdir(Config.cacheSwap);
@@ -146,7 +142,9 @@ void addSwapDir(RefCount<Rock::SwapDir> s)
     ++Config.cacheSwap.n_configured;
 }
 
-Made setUp(const int64_t slotSize, const int64_t maxObj)
+} // namespace
+
+URock::Made URock::SetUp(const int64_t slotSize, const int64_t maxObj)
 {
     Made m;
     m.store = new Rock::SwapDir();
@@ -166,8 +164,14 @@ Made setUp(const int64_t slotSize, const int64_t maxObj)
     return m;
 }
 
+void URock::RunLoop()
+{
+    Loop loop;
+    loop.run();
+}
+
 /// runs Store::Root().init() and the event loop until the rebuild (and the post-rebuild cleanup) is over
-std::string rebuild()
+std::string URock::Rebuild()
 {
     StoreController::store_dirs_rebuilding = 1;
     getCurrentTime(); // squid's main() has set the clock long before any rebuild starts
@@ -186,7 +190,7 @@ std::string rebuild()
     return "";
 }
 
-void tearDown(Made &m)
+void URock::TearDown(Made &m)
 {
     // Rock::SwapDir::init() locks itself once ("to avoid implicit delete's"); undo that so that the file is closed
     if (m.store->LockCount() > 1)
@@ -198,7 +202,7 @@ void tearDown(Made &m)
 }
 
 /// the index as the rest of Squid sees it: readable anchors with their slice chains, and the free slot pool
-std::string walkIndex(Rock::SwapDir &sd, const int n, const std::vector<std::array<uint64_t, 2>> &keys)
+std::string URock::WalkIndex(Rock::SwapDir &sd, const int n, const std::vector<std::array<uint64_t, 2>> &keys)
 {
     std::ostringstream os;
     Ipc::StoreMap map(sd.inodeMapPath());
@@ -246,11 +250,20 @@ std::string walkIndex(Rock::SwapDir &sd, const int n, const std::vector<std::arr
     return os.str();
 }
 
+void URock::SetCase(const std::string &id)
+{
+    CurId = id;
+    if (stderr != RealErr) { if (ftruncate(fileno(stderr), 0)) {} rewind(stderr); }
+}
+
+namespace {
+
+using namespace URock;
+
 void runImageCase(const std::vector<std::string> &t)
 {
     const std::string id = t.at(1);
-    CurId = id;
-    if (stderr != RealErr) { if (ftruncate(fileno(stderr), 0)) {} rewind(stderr); }
+    SetCase(id);
     const int n = atoi(t.at(2).c_str());
     std::vector<int> kf;
     { std::istringstream in(t.at(3)); std::string x; while (std::getline(in, x, ',')) kf.push_back(atoi(x.c_str())); }
@@ -302,24 +315,24 @@ void runImageCase(const std::vector<std::string> &t)
     close(fd);
 
     // 2. the real rebuild
-    Made m = setUp(slotSize, 4 * slotSize);
+    Made m = SetUp(slotSize, 4 * slotSize);
     if (m.store->slotLimitActual() != n) {
         std::cout << "{\"id\":\"" << id << "\",\"error\":\"slot limit " << m.store->slotLimitActual() << "\"}\n";
-        tearDown(m);
+        TearDown(m);
         return;
     }
-    const std::string crash = rebuild();
+    const std::string crash = Rebuild();
 
     // 3. the index
     std::cout << "{\"id\":\"" << id << "\",\"out\":{\"done\":" << U::B(crash.empty()) << ",\"crash\":\"" << U::Esc(crash) << "\",";
     if (crash.empty())
-        std::cout << walkIndex(*m.store, n, keys);
+        std::cout << WalkIndex(*m.store, n, keys);
     else
         std::cout << "\"ent\":[],\"count\":0,\"free\":[]";
     std::cout << "},\"ub\":" << U::B(U::TakeReports() > 0) << "}" << std::endl;
     if (!crash.empty())
         _exit(78); // the process state is unknown after an escaped exception: the check restarts the driver
-    tearDown(m);
+    TearDown(m);
 }
 
 } // namespace
@@ -367,7 +380,7 @@ int main(int argc, char *argv[])
             continue;
         if (t[0] == "C")
             runImageCase(t);
-        else if (t[0] == "W")
+        else if (t[0] == "W" || t[0] == "P")
             runWorkload(t, Dir);
         std::cout.flush();
     }
